@@ -102,6 +102,8 @@ static uint64_t rng;
 static uint64_t last_run[MAXT];
 static uint64_t starve_limit = 2500;
 static int boost_tid = -1;
+/* idle_flag[t]: kernel thread t's last observable action was an epoll_wait that found nothing */
+static int idle_flag[MAXT];
 static uint64_t boost_until;
 static uint64_t ro_streak[MAXT];
 static uint64_t ro_limit = 48;
@@ -414,6 +416,7 @@ void vr_finish(const char* status) {
 
 static inline ev_t* newev(int kind, int cell, uintptr_t addr, int size) {
   if (nev >= maxev) vr_finish("LOGFULL");
+  if (my_tid >= 0) idle_flag[my_tid] = 0;
   ev_t* e = &evs[nev++];
   e->tid = my_tid;
   e->fiber = cur_fiber ? cur_fiber->id : 0;
@@ -949,6 +952,7 @@ int epoll_wait(int epfd, struct epoll_event* evs_, int maxevents, int timeout) {
   /* idle: spinning SP.  When every thread has been idle for a while, time
    * advances by one tick (virtual clock). */
   idle_streak++;
+  idle_flag[my_tid] = 1;
   if (auto_tick && vtimer_fd >= 0 && idle_streak > (uint64_t)(4 * nthreads)) {
     int allspin = 1;
     for (int t = 0; t < nthreads; t++)
@@ -958,8 +962,14 @@ int epoll_wait(int epfd, struct epoll_event* evs_, int maxevents, int timeout) {
       idle_ticks_pending++;
       {
         /* every kernel thread has been idle for several poll rounds: virtual time advances */
+        /* "allidle": every kernel thread's last action was an empty poll (the run queues must
+         * be empty now); "tick": time advances although somebody is merely polling in a loop */
+        int all_idle = 1;
+        for (int t = 0; t < nthreads; t++)
+          if (tstate[t] == 1 && !idle_flag[t]) all_idle = 0;
         ev_t* e = newev(K_NOTE, -1, 0, 0);
-        e->note = strdup("tick");
+        e->note = strdup(all_idle ? "allidle" : "tick");
+        idle_flag[my_tid] = 1;
       }
       vr_tick(1);
       if (++allspin_streak > hang_limit) vr_finish(done_flag ? "OK" : "HANG");
